@@ -589,6 +589,24 @@ def _do_compute(world, op, stats, hist, seq, used, tainted, pending_raise):
         stats.probe("lazy_model")
     if op.get("hedge") and any(i in world.derivatives for i in op["hedge"]):
         stats.probe("listed_hedge")
+    # a listed hedging instrument must quote the price of the CURRENT series of its underlier (no stale quote kept
+    # from an earlier simulation): compare with the pricer evaluated afresh
+    if k in NONRESIM and op.get("hedge"):
+        from ..world import make_pricer
+        for iid in op["hedge"]:
+            if iid in world.derivatives:
+                dl = world.derivatives[iid]
+                spec_l = world.spec_of("derivatives", iid)
+                try:
+                    quoted = dl.spot
+                    ref = make_pricer(spec_l["listed"]["pricer"])(dl)
+                except Exception:
+                    continue
+                stats.checks += 1
+                stats.probe("listed_quote_vs_fresh_pricer")
+                if not bit_equal(quoted.detach(), ref.detach()):
+                    raise Violation(ID, "history_dependent", "listed_derivative.spot", {
+                        "quoted_shape": list(quoted.shape), "current_shape": list(ref.shape), "hedge": op["hedge"]}, seq)
     # F3: clone from durable state BEFORE the live call (fit changes parameters)
     do_restart = op.get("restart")
     clone = world.fresh_clone_hedger(hid) if do_restart else None
